@@ -314,38 +314,8 @@ func ruleStaleCVRequest(c *RC) *RuleResult {
 // panics: contract A11), or a configuration field that checkConfig refuses when it is zero.
 func ruleDivNonzero(c *RC) *RuleResult {
 	r := &RuleResult{Rule: "A-DIV-NONZERO", Kind: "ARITH+GUARD", Doc: "every integer / and % in package dbft has a divisor that cannot be zero: non-zero constant, array length, validator count (documented contract), or a Config field validated by checkConfig"}
-	validated := map[string]bool{}
-	if cc := c.Prog.fn("checkConfig"); cc != nil && len(cc.Params) == 1 {
-		first := true
-		for _, e := range c.exitsOf(cc) {
-			if len(e.Ret) != 1 || e.Ret[0].K != KNil {
-				continue
-			}
-			here := map[string]bool{}
-			for k, v := range e.F.m {
-				a := e.F.atoms[k]
-				if a == nil || a.A == nil || a.B == nil {
-					continue
-				}
-				pre := "p:" + cc.Params[0].Name() + "."
-				if a.Op == "eq" && !v && a.B.S == "0" && strings.HasPrefix(a.A.S, pre) {
-					here[strings.TrimPrefix(a.A.S, pre)] = true
-				}
-				if a.Op == "lt" && v && a.A.S == "0" && strings.HasPrefix(a.B.S, pre) {
-					here[strings.TrimPrefix(a.B.S, pre)] = true
-				}
-			}
-			if first {
-				validated, first = here, false
-			} else {
-				for k := range validated {
-					if !here[k] {
-						delete(validated, k)
-					}
-				}
-			}
-		}
-	} else {
+	_, validated := c.configFacts()
+	if c.Prog.fn("checkConfig") == nil {
 		r.unresolved("checkConfig")
 	}
 	// the constructor hands out an instance only after checkConfig returned nil
@@ -356,13 +326,7 @@ func ruleDivNonzero(c *RC) *RuleResult {
 			if len(e.Ret) != 2 || e.Ret[0].K == KNil {
 				continue
 			}
-			okd := false
-			for k, v := range e.F.m {
-				a := e.F.atoms[k]
-				if a != nil && a.Op == "nn" && !v && a.A != nil && a.A.K == KCall && a.A.S != "" && strings.HasPrefix(a.A.S, "fn:checkConfig(") {
-					okd = true
-				}
-			}
+			okd := e.Events["fn:checkConfig=nil"]
 			if okd {
 				good++
 			} else {
@@ -423,6 +387,57 @@ func ruleDivNonzero(c *RC) *RuleResult {
 	return r
 }
 
+// configFacts reads the configuration validator the way the walker sees it: the Config fields that are known to be
+// non-nil, and those known to be non-zero, on every path on which checkConfig (with its single-caller helpers inlined)
+// returns nil.
+func (c *RC) configFacts() (nonNil, nonZero map[string]bool) {
+	if c.cfgNonNil != nil {
+		return c.cfgNonNil, c.cfgNonZero
+	}
+	c.cfgNonNil, c.cfgNonZero = map[string]bool{}, map[string]bool{}
+	cc := c.Prog.fn("checkConfig")
+	if cc == nil || len(cc.Params) != 1 {
+		return c.cfgNonNil, c.cfgNonZero
+	}
+	pre := "p:" + cc.Params[0].Name() + "."
+	first := true
+	for _, e := range c.exitsOf(cc) {
+		if len(e.Ret) != 1 || e.Ret[0].K != KNil {
+			continue
+		}
+		nn, nz := map[string]bool{}, map[string]bool{}
+		for k, v := range e.F.m {
+			a := e.F.atoms[k]
+			if a == nil || a.A == nil {
+				continue
+			}
+			switch {
+			case a.Op == "nn" && v && strings.HasPrefix(a.A.S, pre):
+				nn[strings.TrimPrefix(a.A.S, pre)] = true
+			case a.Op == "eq" && !v && a.B != nil && a.B.S == "0" && strings.HasPrefix(a.A.S, pre):
+				nz[strings.TrimPrefix(a.A.S, pre)] = true
+			case a.Op == "lt" && v && a.B != nil && a.A.S == "0" && strings.HasPrefix(a.B.S, pre):
+				nz[strings.TrimPrefix(a.B.S, pre)] = true
+			}
+		}
+		if first {
+			c.cfgNonNil, c.cfgNonZero, first = nn, nz, false
+			continue
+		}
+		for k := range c.cfgNonNil {
+			if !nn[k] {
+				delete(c.cfgNonNil, k)
+			}
+		}
+		for k := range c.cfgNonZero {
+			if !nz[k] {
+				delete(c.cfgNonZero, k)
+			}
+		}
+	}
+	return c.cfgNonNil, c.cfgNonZero
+}
+
 // nonzeroDivisor explains why div cannot be zero ("" if nothing does).
 func (c *RC) nonzeroDivisor(fn *FuncInfo, div ast.Expr, validated map[string]bool) string {
 	info := fn.Pkg.TypesInfo
@@ -430,6 +445,14 @@ func (c *RC) nonzeroDivisor(fn *FuncInfo, div ast.Expr, validated map[string]boo
 	if tv, ok := info.Types[div]; ok && tv.Value != nil {
 		if constant.Sign(tv.Value) != 0 {
 			return "non-zero constant"
+		}
+		return ""
+	}
+	if id, ok := div.(*ast.Ident); ok {
+		if v, ok := info.Uses[id].(*types.Var); ok {
+			if d, ok := singleDefs(fn)[v]; ok {
+				return c.nonzeroDivisor(fn, d, validated)
+			}
 		}
 		return ""
 	}
